@@ -307,6 +307,9 @@ func runC10(r *mon.Run) {
 			}
 		case 5:
 			src, cl = b32(new(big.Int).Add(n, rng.Below(new(big.Int).Sub(oracle.Two256, n)))), ">=n"
+			if rng.Bool() {
+				src, cl = b32(rng.WordStructured(n)), "word-structured-around-n"
+			}
 		default:
 			d, _ := keyValue(rng)
 			src, cl = b32(d), "valid"
